@@ -16,7 +16,7 @@ SeqToSet(s) == { s[i] : i \in 1..Len(s) }
 TrNames == { <<>>, <<"a">>, <<"a", "b">>, <<"a", "b", "c">>, <<"a", "c">>, <<"b">>, <<"a", "b", "d">>, <<"b", "a">> }
 TrHandlers == 1..64
 TrNone == {}
-TrVerdicts == {"PASS", "FAIL", "TIMEOUT", "SILENCE", "BYPASS", "T", "F"}
+TrVerdicts == {"PASS", "FAIL", "TIMEOUT", "SILENCE", "BYPASS", "T", "F", "RAISE"}
 TrReprs == {"uri", "strlist", "byteslist", "bytearraylist", "memviewlist", "wire", "wirebuf", "mutbuf"}
 TrEnvs == {"bare", "lp", "lph", "lpo"}
 TrJunk == {"junk"}
